@@ -157,7 +157,14 @@ pub fn stream_verdict(sigs: &[Sig], st: &mut FlowState, seg: &[u8], ctx: &AppCtx
     if seg.is_empty() {
         return AppVerdict::Silent("C11", "empty-segment");
     }
-    match dispatch(sigs, &st.stream, false) {
+    let d = dispatch(sigs, &st.stream, false);
+    // the signature completes on this segment and every earlier segment was still undecided:
+    // the identified protocol's handler is given the whole stream so far
+    let fresh = !st.seen_non_pending;
+    if !matches!(d, Dispatch::Pending) {
+        st.seen_non_pending = true;
+    }
+    match d {
         Dispatch::Pending => AppVerdict::Silent("C10", "no-signature-completed-yet"),
         Dispatch::Dead => AppVerdict::Silent("C10", "no-signature"),
         Dispatch::Matched(p, _, _) => match p {
@@ -187,8 +194,9 @@ pub fn stream_verdict(sigs: &[Sig], st: &mut FlowState, seg: &[u8], ctx: &AppCtx
                 v
             }
             _ => {
-                if before == 0 {
-                    let v = message_verdict(p, seg, ctx, false);
+                if before == 0 || fresh {
+                    let whole = st.stream.clone();
+                    let v = message_verdict(p, &whole, ctx, false);
                     match &v {
                         AppVerdict::Answer(_) => {
                             st.answered = true;
@@ -521,6 +529,11 @@ pub fn stun_verdict(m: &[u8], _ctx: &AppCtx) -> AppVerdict {
     }
     let ty = u16::from_be_bytes([m[0], m[1]]);
     if ty != 0x0001 {
+        if ty & 0x3fff == 0x0001 {
+            // class request, method Binding, but the two most significant bits (zero in every
+            // STUN message) set: neither a Binding request nor another class/method
+            return AppVerdict::Unspecified("stun-top-bits-set".into());
+        }
         return AppVerdict::Silent("C15", "stun-not-binding-request");
     }
     let len = u16::from_be_bytes([m[2], m[3]]) as usize;
